@@ -109,7 +109,8 @@ def backoff_formula(ctx, rule='backoff-formula'):
         Fc = ctx.facts(cl[0])
         ds = cl[0].defs().get(0, [])
         t = fmt_sym(cl[0], Fc.sym_rvalue(ds[0][3], 0, ds[0][1])) if len(ds) == 1 and ds[0][0] == 'stmt' else ''
-        if re.match(r'^\(max\(_\d+\) Le .*retry_count(\(_[\d.]+\))?\)$', t):
+        # `limit <= retry_count` in either spelling; the closure parameter (the limit) is _2, whatever it is called
+        if re.match(r'^\(\w+\(_2\) Le .*retry_count(\(_[\d.]+\))?\)$', t) or re.match(r'^\(.*retry_count(\(_[\d.]+\))? Ge \w+\(_2\)\)$', t):
             r.ok(rule, 'limit-test', 'stops when max <= retry_count', loc=cl[0].loc)
         else:
             r.fail(rule, 'limit-test', 'the retry limit test is %s, not max <= retry_count: the policy yields one delay too many or too few' % t[:80], loc=cl[0].loc)
